@@ -18,6 +18,7 @@ RULE_TEXT = {
     "R-C11-e": "save is append-only and writes the fields in specification order on every path",
     "R-C10-f": "the function that chooses the index word size (fit_dtype) is an exact ladder: every value reaches a dtype that contains it (imported from the C19 decision-tree analysis)",
     "R-C11-f": "the function that chooses the index word size (fit_dtype) is an exact ladder: every value reaches a dtype that contains it, and no narrower one of the same signedness would (imported from the C19 decision-tree analysis)",
+    "R-C10-g": "the word-size chooser only COMPARES the value IndxIO.save passes (a fixed-width NumPy scalar): no +, -, *, <<, ** on it, which would wrap at the top of the scalar's range",
     "R-C12-a": "load: magic check -> version check -> size unpack -> mmap(16+size) dominate every return, in this order",
     "R-C12-b": "after the header every read goes through the mapped buffer (no f.read that could return short data)",
     "R-C12-c": "no exception handler in load swallows an error",
@@ -59,4 +60,80 @@ def run(prop, rules, level, declined, tier, floors, assumptions, trusted):
                 k += 1
                 rep.add(rid, o.where, "[%s] %s" % (o.rule, o.construct), o.status, o.detail, True, o.witness)
         rep.floor(rid, 8, k)
+    if prop == "C10":
+        _chooser_arithmetic(prog, rep)
     return rep.finish()
+
+
+def _chooser_arithmetic(prog, rep):
+    """R-C10-g: IndxIO.save hands fit_dtype a fixed-width NumPy scalar (numpy.max of the coordinate table, int64 or
+    uint64).  Comparisons with Python constants are exact for such a scalar; ARITHMETIC on it wraps at the top of its
+    range (numpy.int64(2**63 - 1) + 1 < 0), and the ladder then picks a word that is far too narrow - the file is
+    self-consistent and loads back with the coordinates reduced modulo the word size."""
+    import ast
+
+    rep.rules["R-C10-g"] = RULE_TEXT["R-C10-g"]
+    try:
+        fsave = prog.func("indxio", "IndxIO.save")
+        ffit = prog.func("iindexes", "fit_dtype")
+    except Exception:
+        rep.undecided("R-C10-g", "indxio:IndxIO.save", "word-size chooser", "IndxIO.save or fit_dtype not found (anchor vanished)")
+        return
+    calls = [c for c in ast.walk(fsave.node) if isinstance(c, ast.Call) and ((isinstance(c.func, ast.Name) and c.func.id == "fit_dtype") or (isinstance(c.func, ast.Attribute) and c.func.attr == "fit_dtype"))]
+    if not calls:
+        # the word size is chosen by another function of the repository (a helper of IndxIO): the same rule, on that one
+        def np_arg(c):
+            return any(isinstance(x, ast.Call) and isinstance(x.func, ast.Attribute) and x.func.attr in ("max", "amax") for a in c.args for x in ast.walk(a))
+        for c in ast.walk(fsave.node):
+            if isinstance(c, ast.Call) and isinstance(c.func, ast.Attribute) and isinstance(c.func.value, ast.Name) and c.func.value.id in ("IndxIO", "self", "cls") and np_arg(c):
+                try:
+                    ffit = prog.func("indxio", "IndxIO.%s" % c.func.attr)
+                    calls = [c]
+                    break
+                except Exception:
+                    pass
+        if not calls:
+            rep.undecided("R-C10-g", fsave.fq, "word-size chooser", "no call of fit_dtype (or of a helper of IndxIO taking the greatest coordinate) in save: the index word size is chosen some other way")
+            return
+
+    def numpy_scalar(e):
+        return any(isinstance(x, ast.Call) and ((isinstance(x.func, ast.Attribute) and x.func.attr in ("max", "amax", "min", "amin") and not (isinstance(x.func.value, ast.Name) and x.func.value.id == "builtins")))
+                   for x in ast.walk(e))
+    passes_np = any(c.args and numpy_scalar(c.args[0]) for c in calls)
+    params = [a.arg for a in ffit.node.args.args if a.arg not in ("self", "cls")]
+    tainted = set(params)
+    changed = True
+    while changed:  # names assigned from expressions over the parameters
+        changed = False
+        for st in ast.walk(ffit.node):
+            if isinstance(st, ast.Assign) and any(isinstance(n, ast.Name) and n.id in tainted for n in ast.walk(st.value)):
+                for t in st.targets:
+                    for n in ast.walk(t):
+                        if isinstance(n, ast.Name) and n.id not in tainted:
+                            tainted.add(n.id)
+                            changed = True
+    signed_bodies = set()
+    for st in ast.walk(ffit.node):
+        if isinstance(st, ast.If) and isinstance(st.test, ast.Compare) and len(st.test.ops) == 1 and isinstance(st.test.ops[0], ast.Lt) \
+                and isinstance(st.test.left, ast.Name) and st.test.left.id in params[1:2] and isinstance(st.test.comparators[0], ast.Constant) and st.test.comparators[0].value == 0:
+            for b in st.body:
+                signed_bodies.update(id(x) for x in ast.walk(b))
+    ar = [b for b in ast.walk(ffit.node) if isinstance(b, ast.BinOp) and isinstance(b.op, (ast.Add, ast.Sub, ast.Mult, ast.LShift, ast.Pow))
+          and any(isinstance(n, ast.Name) and n.id in tainted for n in (b.left, b.right))]
+    ar += [u for u in ast.walk(ffit.node) if isinstance(u, ast.UnaryOp) and isinstance(u.op, ast.USub) and isinstance(u.operand, ast.Name) and u.operand.id in tainted]
+    where = ffit.fq
+    if not ar:
+        rep.proved("R-C10-g", where, "fit_dtype only compares its arguments (no arithmetic on them)", "%d call(s) from IndxIO.save%s" % (len(calls), ", with a NumPy scalar argument" if passes_np else ""))
+        return
+    for b in ar:
+        src = ast.unparse(b)[:50]
+        w = "%s@%d" % (where, b.lineno)
+        cons = "no arithmetic on the value IndxIO.save passes: `%s`" % src
+        if not passes_np:
+            rep.undecided("R-C10-g", w, cons, "arithmetic on an argument; whether save passes a fixed-width NumPy scalar is not recognised")
+        elif id(b) in signed_bodies:
+            rep.undecided("R-C10-g", w, cons, "arithmetic on an argument, on the signed branch only (reached from save only with a negative maximum): wraps at the extreme of int64 only")
+        else:
+            rep.violated("R-C10-g", w, cons,
+                         "IndxIO.save passes numpy.max(<coordinate table>) - a numpy.int64 / uint64 scalar - and `%s` wraps at the top of its range: the ladder then answers the narrowest word and the coordinates are stored modulo 256" % src,
+                         witness={"example": "an index with the coordinate 2**63 - 1 (not below the common value): saved with a 1-byte index word, (2**63 - 1, 1) loads back as (255, 1)"})
